@@ -192,6 +192,8 @@ var ClientSpec = map[string]struct {
 	"c2": {&net.UDPAddr{IP: net.IPv4(10, 0, 0, 2).To4(), Port: 4001}, "u2"},
 	"c3": {&net.UDPAddr{IP: net.IPv4(10, 0, 0, 3).To4(), Port: 4000}, "u1"},
 	"c6": {&net.UDPAddr{IP: net.ParseIP("fd00:a::2"), Port: 4000}, "u1"},
+	// an IPv6 address whose first four bytes are c1's IPv4 address (0a00:0002::), with c1's port
+	"c1h": {&net.UDPAddr{IP: net.IP{10, 0, 0, 2, 0, 0, 0, 0, 0, 0, 0, 0, 0, 0, 0, 0}, Port: 4000}, "u2"},
 	// stream clients of a Dual world with the very ip:port (and user) of the UDP clients c1 / c2
 	"c1t": {&net.UDPAddr{IP: net.IPv4(10, 0, 0, 2).To4(), Port: 4000}, "u1"},
 	"c2t": {&net.UDPAddr{IP: net.IPv4(10, 0, 0, 2).To4(), Port: 4001}, "u1"},
@@ -316,6 +318,8 @@ func NewWorld(cfg Config, clients, peers []string) (*World, error) {
 	case "", "allow":
 	case "denyB":
 		ph = func(_ net.Addr, ip net.IP) bool { return !ip.Equal(PeerSpec["B"].IP) }
+	case "denyBlate":
+		ph = func(_ net.Addr, ip net.IP) bool { return !ip.Equal(PeerSpec["B"].IP) || time.Since(Epoch) < PolicyFlip }
 	case "denyAll":
 		ph = func(net.Addr, net.IP) bool { return false }
 	default:
